@@ -1,6 +1,6 @@
 (* Own/QuaintProofs.v — invariants of the quaint_ptr model (Own/Quaint.v) over ALL operation lists. *)
 From Coq Require Import List Arith Bool Lia.
-From Nitro Require Import Own.Count Own.CountProofs Own.Quaint.
+From Nitro Require Import Base.ListX Own.Count Own.CountProofs Own.Quaint.
 Import ListNotations.
 Local Open Scope list_scope.
 
@@ -25,6 +25,9 @@ Proof. revert k; induction l as [|z l IH]; intros [|k]; simpl; try discriminate.
 
 Lemma setn_setn' {A} (l : list A) k x y : setn (setn l k x) k y = setn l k y.
 Proof. revert k; induction l as [|z l IH]; intros [|k]; simpl; auto. f_equal; auto. Qed.
+
+Lemma skipn_S_app {A} (l1 l2 : list A) p : skipn (S (length l1)) (l1 ++ p :: l2) = l2.
+Proof. induction l1 as [|a l IH]; simpl; auto. Qed.
 
 Lemma map_otype_release h p : map otype (release h p) = map otype h.
 Proof.
@@ -160,7 +163,7 @@ Proof. intros F T. rewrite map_setn. apply Forall_setn; auto. Qed.
 Lemma inv_step st o : inv st -> inv (q_step st o).
 Proof.
   intros [Hc Htp Htv Hw]. destruct st as [h pool v]. simpl in *.
-  destruct o as [i t|i j|i j|i|i|i| | |i k|i|k|i j|i|]; simpl.
+  destruct o as [i t|i j|i j|i|i|i| | |i k|i|k|i j|i| |k]; simpl.
   - (* Make *)
     destruct (nth_error pool i) as [[|old]|] eqn:Ei; [| |constructor; auto].
     + constructor; simpl.
@@ -320,6 +323,19 @@ Proof.
     + intros id. specialize (Hc id). rewrite cnt_app in Hc. simpl in Hc. specialize (L id). lia.
     + eapply Forall_typed_mono; eauto.
     + eapply Forall_typed_mono; eauto.
+  - (* VecErase *)
+    destruct (nth_error v k) as [p|] eqn:Ek; [|constructor; auto]. simpl.
+    destruct (nth_error_split v k Ek) as (l1 & l2 & Ev & El). subst v k.
+    rewrite firstn_app_exact.
+    change (match l1 ++ p :: l2 with [] => [] | _ :: l => skipn (length l1) l end) with (skipn (S (length l1)) (l1 ++ p :: l2)).
+    rewrite skipn_S_app.
+    apply Forall_app in Htv. destruct Htv as [Ht1 Ht2]. inversion Ht2 as [|? ? Tp Ht2']; subst.
+    destruct (release_one h p) as (W & L & T); auto.
+    { intros id. specialize (Hc id). rewrite cnt_app in Hc. cbn [cnt] in Hc. lia. }
+    constructor; simpl; auto.
+    + intros id. specialize (Hc id). rewrite cnt_app in Hc. cbn [cnt] in Hc. rewrite cnt_app. specialize (L id). lia.
+    + eapply Forall_typed_mono; eauto.
+    + apply Forall_app. split; eapply Forall_typed_mono; eauto.
 Qed.
 
 Lemma inv_init n : inv (q_init n).
@@ -398,7 +414,7 @@ Qed.
 Theorem moved_from_and_reset_empty st o j :
   q_applicable st o = true -> must_be_empty o = Some j -> slot_is_null (q_step st o) j = true.
 Proof.
-  destruct st as [h pool v]. unfold slot_is_null. destruct o as [i t|i j'|i j'|i|i|i| | |i k|i|k|i j'|i|]; simpl; try discriminate.
+  destruct st as [h pool v]. unfold slot_is_null. destruct o as [i t|i j'|i j'|i|i|i| | |i k|i|k|i j'|i| |k]; simpl; try discriminate.
   - intros A [= ->]. destruct (nth_error pool i) as [[|?]|] eqn:Ei; try discriminate.
     destruct (is_live (nth_error pool j)) as [pj|] eqn:Ej; [|discriminate]. apply is_live_some in Ej. simpl.
     assert (i <> j) by (intros ->; congruence).
@@ -556,7 +572,7 @@ Qed.
 (* one operation never forgets an object, changes its type, revives it or removes a destruction record — in every state *)
 Theorem heap_extends_step st o : heap_extends (heap st) (heap (q_step st o)) = true.
 Proof.
-  destruct st as [h pool v]. destruct o as [i t|i j|i j|i|i|i| | |i k|i|k|i j|i|]; simpl.
+  destruct st as [h pool v]. destruct o as [i t|i j|i j|i|i|i| | |i k|i|k|i j|i| |k]; simpl.
   - destruct (nth_error pool i) as [[|old]|]; simpl; try apply heap_extends_refl.
     + apply heap_extends_app.
     + eapply heap_extends_trans; [apply heap_extends_app | apply heap_extends_release].
@@ -578,4 +594,5 @@ Proof.
     destruct (is_live (nth_error pool j)); simpl; apply heap_extends_refl.
   - destruct (nth_error pool i) as [[|?]|]; simpl; apply heap_extends_refl.
   - destruct (rev v); simpl; [apply heap_extends_refl | apply heap_extends_release].
+  - destruct (nth_error v k); simpl; [apply heap_extends_release | apply heap_extends_refl].
 Qed.
